@@ -144,8 +144,12 @@ def from_python(x, ty) -> SV:
 
 def resolve_model(pc, goal, timeout_ms=20000):
     """re-solve a failed obligation in this process to get a model object"""
+    from .types import BACKGROUND
+
     s = z3.Solver()
     s.set("timeout", timeout_ms)
+    for a in BACKGROUND:
+        s.add(a)
     for p in pc:
         s.add(p)
     s.add(z3.Not(goal))
